@@ -5,7 +5,7 @@ from . import mclient, proto, scen
 from .scen import US
 
 QT = [proto.T_NULL, proto.T_PRIVATE, proto.T_TXT, proto.T_SRV, proto.T_MX, proto.T_CNAME, proto.T_A]
-FRAGS = [2, 3, 7, 50, 100, 199, 200, 500, 1200, 4093, 4094, 4095, 8000, 65535]
+FRAGS = [2, 3, 7, 50, 100, 199, 200, 500, 1200, 2048, 3000, 4093, 4094, 4095, 8000, 65535]
 
 
 def gen_session_cfg(rng, idx):
@@ -184,8 +184,9 @@ def do_op(s, mc, op, rng):
             o.pump(400000, 50000)
             mc.pump(400000, 50000)
     elif op == "down":
-        big = mc.fragsize > 4094 and mc.qtype in (proto.T_NULL, proto.T_PRIVATE) and rng.random() < 0.5
-        f = mk_frame(s, mc, "down", rng, size=rng.choice([4200, 4500, 6000, 9000]) if big else None)
+        big = mc.fragsize >= 2047 and mc.qtype in (proto.T_NULL, proto.T_PRIVATE) and rng.random() < 0.5
+        # (fragments of 2 .. 4 KB are the largest answers the server's answer cache holds; beyond that nothing is cached)
+        f = mk_frame(s, mc, "down", rng, size=rng.choice(([2100, 3000, 3500, 4000] if mc.fragsize <= 4094 else []) + [4200, 4500, 6000, 9000]) if big else None)
         if big:
             f = proto.make_frame(s.server_tun_ip, mc.tun_ip, (s.ident << 8) | 0xB1, len(f), "random", rng)
         s.offered_down.append(f)
